@@ -12,6 +12,7 @@
 -/
 import Stfs.Model.Sys
 import Stfs.Spec.ByteFile
+import Stfs.Gen.Fingerprints
 namespace Stfs.C14
 open Stfs
 
@@ -86,6 +87,72 @@ theorem seek_streaming_position (data : Bytes) (pos : Nat) (dst : Int) (atEOF : 
 def env1 (now : Int) : Env := { now := now, recs := [(3, 0)] }
 
 def tenBytes : Bytes := [48, 49, 50, 51, 52, 53, 54, 55, 56, 57]
+
+/-! ### the streaming reader over whole histories -/
+
+/-- what a client does on a handle in streaming (read) mode: read, or seek forward to an
+    absolute offset -/
+inductive SOp
+  | read (n : Nat)
+  | seekTo (dst : Nat)
+
+/-- one call on the stream position, as `hRead`/`hSeekNoLock` drive the cores; the bytes a
+    `Read` returns are the output -/
+def streamStep (data : Bytes) (pos : Nat) : SOp → Nat × Bytes
+  | .read n => ((streamRead data pos n).2.1, (streamRead data pos n).1)
+  | .seekTo dst => ((streamSkip data pos ((dst : Int) - pos) 0).1, [])
+
+/-- the reference: read at the cursor / set the cursor -/
+def refStreamStep (data : Bytes) (pos : Nat) : SOp → Nat × Bytes
+  | .read n => ((ByteFile.read { data := data, pos := pos } n).1.pos, (ByteFile.read { data := data, pos := pos } n).2.2)
+  | .seekTo dst => (dst, [])
+
+/-- seeks go forward and stay inside the content (backward seeks restart the stream, seeks
+    beyond the end stop at the end: both are finding F23's region) -/
+def forwardInside (data : Bytes) (pos : Nat) : SOp → Bool
+  | .read _ => true
+  | .seekTo dst => pos < dst && dst ≤ data.length
+
+def runStream (data : Bytes) (pos : Nat) : List SOp → Nat × List Bytes
+  | [] => (pos, [])
+  | op :: ops => let r := streamStep data pos op; let rest := runStream data r.1 ops; (rest.1, r.2 :: rest.2)
+
+def runRefStream (data : Bytes) (pos : Nat) : List SOp → Nat × List Bytes
+  | [] => (pos, [])
+  | op :: ops => let r := refStreamStep data pos op; let rest := runRefStream data r.1 ops; (rest.1, r.2 :: rest.2)
+
+def allForward (data : Bytes) (pos : Nat) : List SOp → Bool
+  | [] => true
+  | op :: ops => forwardInside data pos op && allForward data (streamStep data pos op).1 ops
+
+/-- (8) Refinement in streaming mode over whole histories: for every content and every sequence
+    of Reads and forward Seeks inside the content, every Read returns the reference's bytes
+    and the position is the reference's throughout. -/
+theorem streaming_refines_bytefile (data : Bytes) (ops : List SOp) (pos : Nat) (hg : allForward data pos ops = true) :
+    runStream data pos ops = runRefStream data pos ops := by
+  induction ops generalizing pos with
+  | nil => rfl
+  | cons op ops ih =>
+    simp only [allForward, Bool.and_eq_true] at hg
+    have hstep : streamStep data pos op = refStreamStep data pos op := by
+      cases op with
+      | read n =>
+        have h := read_streaming data pos n
+        simp only [streamStep, refStreamStep, h.1, h.2]
+      | seekTo dst =>
+        have hf := hg.1
+        simp only [forwardInside, Bool.and_eq_true, decide_eq_true_eq] at hf
+        have h := seek_streaming_position data pos (dst : Int) 0 (by omega) (by omega)
+        simp only [streamStep, refStreamStep, h.1, Int.toNat_natCast]
+    have := ih (streamStep data pos op).1 hg.2
+    simp only [runStream, runRefStream, hstep] at this ⊢
+    rw [this]
+
+example :
+    let ops := [SOp.read 3, .seekTo 7, .read 2, .read 5, .read 1]
+    allForward tenBytes 0 ops = true ∧ (runStream tenBytes 0 ops).2 = [[48, 49, 50], [], [55, 56], [57], []] := by
+  decide
+
 
 /-! ### the write cache over whole histories (refinement to the byte array) -/
 
@@ -257,5 +324,15 @@ theorem F22_witness :
     let s1 := (sF23.step {} {} (.hread 2 5)).1
     (match (s1.step {} (env1 9) (.mkdir (n!"/d") 493)).2 with | .error .stuck => true | _ => false) = true := by
   decide
+
+-- MIRRORS-BEGIN (maintained by bin/update-mirrors)
+/-- The parts of the model this file's theorems are about were written by hand against these
+    versions of the functions they mirror (fingerprint of each function's comment-free source,
+    regenerated on every run).  When one of them changes, this obligation fails: the change has
+    to be confirmed harmless by the correspondence, or shows up as its failing input. -/
+theorem model_mirrors_source :
+    [(n!"fs.File.Read"), (n!"fs.File.ReadAt"), (n!"fs.File.Seek"), (n!"fs.File.seekWithoutLocking"), (n!"fs.File.Write"), (n!"fs.File.WriteAt"), (n!"fs.File.WriteString"), (n!"fs.File.Truncate"), (n!"fs.File.enterWriteMode"), (n!"fs.File.syncWithoutLocking"), (n!"fs.File.closeWithoutLocking"), (n!"fs.File.Stat")].map Gen.fingerprintOf =
+    [some 1012172523322856820, some 705744641016468564, some 1238093570208668037, some 64861167514041371, some 1173533311108468106, some 592242020438334892, some 258280185019789225, some 2204048852330886634, some 1446306354819979764, some 180719127958551020, some 1879860595920009448, some 864840339918521905] := by decide
+-- MIRRORS-END
 
 end Stfs.C14
